@@ -746,7 +746,9 @@ PROPERTY_FREE = {
             ("registration", "delay reduce 0 0 300", 100, 2000)],
     "C02": [("mp_policies", "", 200, 4000), ("mw_nested", nested_extra, 150, 3000)],
     "C03": [("mp_dispatch", "", 200, 4000)],
-    "C04": [("stop_race", "", 200, 4000)],
+    "C04": [("stop_race", "", 200, 4000),
+            # slow channeled consumers: unsubscribe() of a backlogged subscriber racing stop()
+            ("channeled", "delay notify 2 0 300\ndelay notify 3 0 300", 120, 2400)],
     "C05": [("mp_dispatch", "", 200, 4000)],
     "C06": [("drop_burst", "", 200, 4000)],
     "C07": [("registration", "", 200, 4000), ("registration", "delay reduce 0 0 300", 150, 3000)],
